@@ -635,7 +635,10 @@ func (c *Compiler) compileSwitch(node *ast.Switch) error {
 
 	// Compile the default case block if it exists
 	if defaultJumpPos != -1 {
-		if err := c.compile(choices[defaultJumpPos].Block()); err != nil {
+		if block := choices[defaultJumpPos].Block(); block == nil {
+			// Empty default block
+			c.emit(op.Nil)
+		} else if err := c.compile(block); err != nil {
 			return err
 		}
 	} else {
